@@ -443,11 +443,7 @@ class Built(object):
             WrapIn, _ = make_handlers()
             kw['data_handler'] = WrapIn(self, d)
         if d.get('capture', 'all') != 'all':
-            if d['capture'] == 'none':
-                kw['capture_args'] = []
-            else:
-                off = 0 if d['kind'] == 'static' else 1
-                kw['capture_args'] = [CapturedArg(i + off, 'p%d' % i) for i in d['capture']]
+            kw['capture_args'] = self._capture_arg_list(d)
         if d.get('fallback') is not None:
             fb = d['fallback']
             if fb == 'fn' or (isinstance(fb, tuple) and fb[0] == 'fn'):
@@ -470,6 +466,19 @@ class Built(object):
             kw['value_when_missing'] = substitute_fn
         f = rec.static_intercept_input if d['kind'] == 'static' else rec.intercept_input
         return f(d['alias'], **kw)
+
+    @staticmethod
+    def _capture_arg_list(d):
+        """capture_args as handed to the decorator: None = all, [] = none, else CapturedArg(position in the full argument
+        list as the function receives it (instance included), parameter name)."""
+        from playback.tape_recorder import CapturedArg
+        cap = d.get('capture', 'all')
+        if cap == 'all':
+            return None
+        if cap == 'none':
+            return []
+        off = 0 if d['kind'] == 'static' else 1
+        return [CapturedArg(i + off, 'p%d' % i) for i in cap]
 
     def _deco_output(self, d):
         rec = self.recorder
